@@ -10,13 +10,17 @@ from corr_world import ScriptedWrapper, DRIVER
 
 
 class HeurWrapper(ScriptedWrapper):
-    def __init__(self, fail=False):
+    def __init__(self, fail=False, fail_at=0):
         super().__init__(); self.calls = []; self.k = 0; self.fail = fail; self.first_value = None; self.expected_tol = None
+        self.fail_at = fail_at          # number of the solve (>= 2: a solve of the dimension-reduction stage) on which the solver reports no value
     def set_main_variables(self): pass
     def generate_problem(self, o): self.objective = o
     def solve(self, **kw):
         self.k += 1; self.calls.append("solve%d" % self.k)
         if self.fail: return "scripted", "none", None
+        if self.k == self.fail_at:
+            self.optimal_G = self.optimal_F = None          # what the cvxpy back-end holds after an infeasible / failed solve
+            return "scripted-infeasible", "none", None
         n, m = Point.counter, Expression.counter
         rng = np.random.default_rng(self.k)
         A = rng.integers(-2, 3, size=(n, n)).astype(float); self.optimal_G = A.T @ A
@@ -70,7 +74,9 @@ def one(seed):
     mode = rnd.choice(["dual", "dual", "primal", "both"])
     fail = rnd.random() < .1
     pep, c0 = build(rnd)
-    w = HeurWrapper(fail=fail)
+    # one program in five: the solver fails on a solve of the dimension-reduction stage (solve 2, 3, 4 or 11)
+    fail_at = [2, 3, 2, 4, 11][_z.crc32(("failat/%d" % seed).encode()) % 5] if (_z.crc32(("failheur/%d" % seed).encode()) % 5 == 0 and not fail) else 0
+    w = HeurWrapper(fail=fail, fail_at=fail_at)
     w.expected_tol = rnd.choice([1e-5, 1e-4, 1e-3, 1e-2])
     verbose = rnd.choice([0, 0, 1, 2, -1])          # the calls made to the solver must not depend on the verbosity
     raises = False; ret = None
@@ -97,6 +103,8 @@ def one(seed):
                     pepmod.WRAPPERS.clear(); pepmod.WRAPPERS.update(saved)
     except ValueError:
         raises = True
+    except Exception as ex:
+        return "flow %s %s" % (heur, mode) + (" failat=%d" % fail_at if fail_at else ""), "calls=%s RAISES %s" % (",".join(w.calls), type(ex).__name__)
     if fail:
         line = "flowfail"
         got = "calls=%s duals=0 primal=0 raises=%s" % (",".join(w.calls), "true" if raises else "false")
@@ -122,7 +130,7 @@ def one(seed):
     else:
         primal = 1          # invalid heuristic: raised before any instance was stored; the model says "first solve"
     got = "calls=%s duals=%d primal=%d raises=%s" % (",".join(w.calls), duals, primal, "true" if raises else "false")
-    return "flow %s %s" % (heur, mode), got
+    return "flow %s %s" % (heur, mode) + (" failat=%d" % fail_at if fail_at else ""), got
 
 
 def report(which, n, seed0):
